@@ -248,6 +248,22 @@ def gen_large(tier, seed):
     return cases
 
 
+def gen_huge(tier, seed):
+    """Single frames above 16 MiB (a server with frame_max 0 = no limit may send a whole message as one
+    body frame) followed by a small one, in one piece and in three: judged by the monitor only (the
+    list model of the buffer is too slow for 17 million bytes)."""
+    rng = Rng(seed + 6700)
+    sizes = [2 ** 24 - 8, 2 ** 24 - 7, 2 ** 24 + 1] + ([] if tier == "quick" else [20000000, 2 ** 25 + 3])
+    cases = []
+    for i, sz in enumerate(sizes):
+        big = amqp.body(1, bytes(1024) * (sz // 1024) + bytes(sz % 1024))
+        frs = [amqp.heartbeat(), big, amqp.basic_ack(1, 5, True)]
+        vs = verdicts(frs)
+        for variant, cuts in enumerate(([], [7 + 8, len(big) // 2, len(big) + 7])):
+            cases.append(make_case("H%d_%d" % (sz, variant), frs, vs, cuts, rng, wb_prob=0.0, one_call=(variant == 0)))
+    return cases
+
+
 def gen_exhaustive(tier, seed):
     """Every pair of cut positions for small streams (each piece in its own read call, and all in one)."""
     rng = Rng(seed + 606)
@@ -286,6 +302,8 @@ def suites(tier, seed):
                   "the server sent a heartbeat and Connection.Close(320) right behind OpenOk, the first %s bytes in the same write as OpenOk: the client must end with ServerClosedConnection 320, got %s" % (c.ops[0].split(",")[-1], [l for l in il if l.startswith(("open", "close", "death"))]), "c06-handshake-boundary"),
               nontrivial=lambda c, il: True, compare=False, shards=8, timeout=120,
               rule="end to end: the bytes of the frames that follow OpenOk arrive partly in the same read as OpenOk (0-7 bytes of a heartbeat frame), the rest 300 ms later: the decoder state survives the switch from handshake to steady state - the frames the client acts on depend only on the bytes"),
+        Suite("framebuf-huge", "framebuf", lambda: gen_huge(tier, seed), monitor=monitor, nontrivial=nontrivial, shrink=False, compare=False, timeout=600,
+              rule="one body frame of 2^24-8, 2^24-7, 2^24+1 payload bytes (thorough: 20 000 000, 2^25+3) between two small frames, readable at once and in four pieces: every frame is delivered (no upper limit on a well-formed frame's size); monitor only - the list model is not run on 17 MB"),
         Suite("framebuf-large", "framebuf", lambda: gen_large(tier, seed), monitor=monitor, nontrivial=nontrivial, shrink=False, shards=4,
               rule="one body frame of 4080 ... 200000 bytes (thorough: up to 3 MB) between small frames, everything readable at once or cut just after the header / just before the last byte / at random: every frame handed on once, in order, as soon as its last byte has arrived"),
         Suite("framebuf-random", "framebuf", lambda: gen_random(tier, seed), monitor=monitor, nontrivial=nontrivial,
